@@ -721,6 +721,14 @@ class MiniEval:
                 if any(ast.unparse(d) == "property" for d in getattr(meth.node, "decorator_list", [])):
                     return self.call_function(meth, [base], {}, depth + 1)
                 return FuncRef(meth, bound_self=base)
+            # an object built by a repository __init__ that was not run at construction (its arguments are kept for
+            # inspection): run it now, once, and look again
+            init = self.ctx.r.method(base.cls, "__init__")
+            if init is not None and init.cls is not None and not init.module.external and not base.attrs.get("__init_ran__") and init.cls.name not in ("object", "Generic"):
+                base.attrs["__init_ran__"] = True
+                self.call_function(init, [base] + list(base.args), dict(base.kwargs), depth + 1)
+                if expr.attr in base.attrs:
+                    return base.attrs[expr.attr]
             raise Unevaluable(f"attribute {expr.attr} of {base.cls.name} instance")
         if isinstance(base, FuncRef):
             if expr.attr in base.attrs:
@@ -839,6 +847,8 @@ class MiniEval:
                 if name == "isinstance":
                     if isinstance(subject, Instance):
                         scls: Optional[ClassInfo] = subject.cls
+                    elif isinstance(subject, OidVal):
+                        scls = self.ctx.u.cls("x690.types:ObjectIdentifier")
                     elif isinstance(subject, (bool, int, str, bytes, float, list, tuple, dict)) or subject is None:
                         return any(isinstance(t, type) and isinstance(subject, t) for t in targets)
                     else:
@@ -848,6 +858,14 @@ class MiniEval:
                 if scls is None:
                     raise Unevaluable("issubclass of a non-class")
                 return any(isinstance(t, ClassRef) and self.ctx.r.is_subclass(scls, t.cls) for t in targets)
+            if name == "type" and len(args) == 1:
+                if isinstance(args[0], Instance):
+                    return ClassRef(args[0].cls)
+                if isinstance(args[0], OidVal):
+                    return ClassRef(self.ctx.u.cls("x690.types:ObjectIdentifier"))
+                if isinstance(args[0], (Sym, SymBytes, ClassRef, FuncRef)):
+                    raise Unevaluable("type() of an opaque value")
+                return type(args[0])
             if name == "getattr" and len(args) in (2, 3) and isinstance(args[1], str):
                 try:
                     return self.attribute(fn, ast.Attribute(ast.Name("__obj", ast.Load()), args[1], ast.Load()), {**env, "__obj": args[0]}, depth)
@@ -924,6 +942,12 @@ class MiniEval:
                 got = self.construct(target.cls, args, kwargs)
                 if got is not NotImplemented:
                     return got
+            if any(ast.unparse(b).split(".")[-1] == "TypedDict" for klass in self.ctx.r.mro(target.cls) for b in klass.node.bases):
+                out_td: Dict[Any, Any] = {}
+                for a in args:
+                    out_td.update(a if isinstance(a, dict) else dict(self.iterate(a)))
+                out_td.update(kwargs)
+                return out_td  # a TypedDict "class" builds a plain dict
             inst = Instance(target.cls, args, kwargs)
             init = self.ctx.r.method(target.cls, "__init__")
             if init is None or init.cls is None or init.cls.name in ("object", "Generic"):
